@@ -116,6 +116,8 @@ pub use crate::draw_target::{BlendMode, DrawOptions, DrawTarget, SolidSource, So
 pub use crate::stroke::*;
 #[cfg(raqote_verif)]
 pub use crate::dash::dash_path as verif_dash_path;
+#[cfg(raqote_verif)]
+pub use crate::rasterizer::verif_curve_edge;
 
 pub use sw_composite::{Color, Gradient, GradientStop, Image, Spread};
 
